@@ -10,3 +10,4 @@ open PgmVerif
 #print axioms PgmVerif.C05_valid_complete
 #print axioms PgmVerif.C05_check_model_iff
 #print axioms PgmVerif.C05_atol_tie
+#print axioms PgmVerif.C05_joint_mass_one
